@@ -114,6 +114,12 @@ func (P *Prog) symD(v ssa.Value, d int) string {
 		if x.Op == token.MUL {
 			switch a := x.X.(type) {
 			case *ssa.FieldAddr:
+				// a field of a local struct that merely carries a value from where it was built to here
+				if _, isLocal := a.X.(*ssa.Alloc); isLocal {
+					if r := resolveLocal(x); r != ssa.Value(x) {
+						return P.symD(r, d+1)
+					}
+				}
 				f, _ := fieldOf(a)
 				return "field:" + f + "@" + P.symD(a.X, d+1)
 			case *ssa.Alloc:
